@@ -9,6 +9,10 @@ Specification (`inlineTree`, `inlineForest`, `pastesOf`, `PasteEdge`, `PasteReac
 * (2) `duplicate_rejected`    a second MACRO of the same name is rejected
 * (3) `self_cycle_rejected`, `cycle_rejected`, `expand_cycle_rejected`   every PASTE cycle is rejected
 * (4) `undefined_rejected`    a PASTE of an undefined macro is never silently dropped
+* (4') `check_pastes_defined`, `undefined_paste_in_macro_rejected`, `expand_undefined_paste_in_macro_rejected`,
+       `source_undefined_paste_in_macro_rejected`, `expand_all_pastes_defined`,
+       `first_undefined_paste_reported`   a PASTE of an undefined macro in the body of a MACRO is rejected by
+       the recursion check ("macro not found"), whether or not that MACRO is ever pasted (the "macro not found" repair of `findPaste`)
 * (5) `expand_no_fuel`        the fuel computed by `expand` always suffices (bounded time)
 * (6) `unused_macro_inert`    deleting a macro that nothing pastes changes nothing
 
@@ -190,16 +194,191 @@ theorem undefined_rejected (roots f : List Tree) (h : expand roots = .ok f) :
   rcases expand_ok h with ⟨ms, rest, st, hc, _, hl, _⟩
   refine ⟨ms, rest, hc, ?_⟩
   intro t ht n hn
-  apply (expand_defined ms _).2 _ _ _ _ hl n
   rw [pastesOf_eq] at hn
-  clear hl hc
-  induction rest with
-  | nil => cases ht
-  | cons a r ih =>
-    rw [pastes.pastesL]
-    rcases List.mem_cons.mp ht with rfl | ht
-    · exact List.mem_append_left _ hn
-    · exact List.mem_append_right _ (ih ht)
+  exact (expand_defined ms _).2 _ _ _ _ hl n (mem_pastesL ht hn)
+
+/-! ## (4') undefined macros inside macro bodies
+
+Before its "macro not found" repair `findPaste` skipped a PASTE whose name is not a defined macro, so
+`MACRO @a ( PASTE @nope )` passed as long as `@a` was never pasted.  Now the recursion check, which walks
+the body of every MACRO, reports it ("macro not found"). -/
+
+/-- (4') if the recursion check passes then every PASTE in the body of every macro of the table — pasted
+    somewhere or not — has a name, and that name is a defined macro.  (`p ∈ ms` is membership in the list
+    of (name, MACRO tree) pairs in definition order; no side condition on `ms`.) -/
+theorem check_pastes_defined (ms : Macros) (h : checkRecursion ms = .ok ()) :
+    ∀ p ∈ ms, ∀ n ∈ pastesOf p.2, n ≠ 0 ∧ (ms.get? n).isSome := by
+  intro p hp n hn
+  rw [pastesOf_eq] at hn
+  exact check_defined h p hp n hn
+
+/-- (4') a PASTE of an undefined macro inside the body of a macro is rejected by the recursion check,
+    whether or not that macro is ever pasted.  The error need not be the `notFound` of this very PASTE (an
+    earlier fault — a cycle, a nameless PASTE, another undefined name — is reported first), but it is
+    never `.ok` and never "out of fuel". -/
+theorem undefined_paste_in_macro_rejected (ms : Macros) (a : Nat) (m : Tree) (n : Nat)
+    (hm : (a, m) ∈ ms) (hn : n ∈ pastesOf m) (hu : ms.get? n = none) :
+    ∃ e, checkRecursion ms = .error e ∧ e ≠ .fuel := by
+  cases hc : checkRecursion ms with
+  | error e => exact ⟨e, rfl, fun he => checkRecursion_no_fuel ms (he ▸ hc)⟩
+  | ok u =>
+    have := (check_pastes_defined ms hc (a, m) hm n hn).2
+    rw [hu] at this
+    cases this
+
+/-- (4') hence also by `expand`, for every source whose collected macro table is `ms` -/
+theorem expand_undefined_paste_in_macro_rejected (roots : List Tree) (ms : Macros) (rest : List Tree)
+    (a : Nat) (m : Tree) (n : Nat) (hc : collectMacro roots [] [] = .ok (ms, rest))
+    (hm : (a, m) ∈ ms) (hn : n ∈ pastesOf m) (hu : ms.get? n = none) :
+    ∃ e, expand roots = .error e ∧ e ≠ .fuel := by
+  rcases undefined_paste_in_macro_rejected ms a m n hm hn hu with ⟨e, he, hne⟩
+  exact ⟨e, by unfold expand; simp only [hc, he], hne⟩
+
+/-- (4') the same in terms of the source alone: a top-level MACRO `m` whose body contains `PASTE @n`,
+    where no top-level MACRO bears the name `n`, makes `expand` fail — whether or not `m` is pasted -/
+theorem source_undefined_paste_in_macro_rejected (roots : List Tree) (m : Tree) (n : Nat)
+    (hm : m ∈ roots) (hk : m.dir.kind = Gen.Kind.Macro) (hn : n ∈ pastesOf m)
+    (hu : ∀ t ∈ roots, t.dir.kind = Gen.Kind.Macro → t.dir.name ≠ n) :
+    ∃ e, expand roots = .error e ∧ e ≠ .fuel := by
+  cases hc : collectMacro roots [] [] with
+  | error e =>
+    exact ⟨e, by unfold expand; simp only [hc], fun he => collect_no_fuel _ _ _ (he ▸ hc)⟩
+  | ok p =>
+    rcases p with ⟨ms, rest⟩
+    exact expand_undefined_paste_in_macro_rejected roots ms rest m.dir.name m n hc
+      ((collect_complete _ _ _ _ _ hc).2.2.1 m hm hk) hn (collect_get?_none hc hu)
+
+/-- (4)+(4') if `expand` succeeds then EVERY PASTE node of the source — in the directives and in the
+    bodies of all MACROs, pasted or not — names a defined macro -/
+theorem expand_all_pastes_defined (roots f : List Tree) (h : expand roots = .ok f) :
+    ∃ ms rest, collectMacro roots [] [] = .ok (ms, rest) ∧
+      ∀ t ∈ roots, ∀ n ∈ pastesOf t, (ms.get? n).isSome := by
+  rcases expand_ok h with ⟨ms, rest, st, hc, hr, hl, _⟩
+  refine ⟨ms, rest, hc, ?_⟩
+  intro t ht n hn
+  rcases collect_complete _ _ _ _ _ hc with ⟨_, _, hmac, hrest⟩
+  by_cases hk : t.dir.kind = Gen.Kind.Macro
+  · exact (check_pastes_defined ms hr (t.dir.name, t) (hmac t ht hk) n hn).2
+  · rw [pastesOf_eq] at hn
+    exact (expand_defined ms _).2 _ _ _ _ hl n (mem_pastesL (hrest t ht hk) hn)
+
+/-- the first PASTE node of a tree in document order (like `pastesOf`, not looking below a PASTE) -/
+def firstPaste : Tree → Option Dir
+  | .node d kids => if d.kind == Gen.Kind.Paste then some d else firstPasteList kids
+where firstPasteList : List Tree → Option Dir
+  | [] => none
+  | t :: r =>
+    match firstPaste t with
+    | some p => some p
+    | none => firstPasteList r
+
+/-- on a tree without PASTE the DFS changes nothing -/
+theorem findPaste_nopaste (ms : Macros) (tgt : Nat) : ∀ fuel : Nat,
+    (∀ t v, firstPaste t = none → 2 * treeSize t ≤ fuel → findPaste ms tgt fuel t v = .ok v) ∧
+    (∀ l v, firstPaste.firstPasteList l = none → 2 * treeSize.sizeList l + 1 ≤ fuel →
+      findPasteList ms tgt fuel l v = .ok v) := by
+  intro fuel
+  induction fuel with
+  | zero =>
+    constructor
+    · intro t v _ h; have := treeSize_pos t; omega
+    · intro l v _ h; omega
+  | succ fuel ih =>
+    rcases ih with ⟨ihT, ihL⟩
+    constructor
+    · intro t v hp hf
+      rcases t with ⟨d, kids⟩
+      rw [treeSize_node] at hf
+      rw [firstPaste] at hp
+      rw [findPaste]
+      by_cases hk : (d.kind == Gen.Kind.Paste) = true
+      · simp [hk] at hp
+      · simp only [hk, Bool.false_eq_true, if_false] at hp ⊢
+        exact ihL _ _ hp (by omega)
+    · intro l v hp hf
+      cases l with
+      | nil => rw [findPasteList]
+      | cons t r =>
+        rw [treeSize.sizeList] at hf
+        rw [firstPaste.firstPasteList] at hp
+        have := treeSize_pos t
+        cases ht : firstPaste t with
+        | some p => simp [ht] at hp
+        | none =>
+          simp only [ht] at hp
+          rw [findPasteList, ihT t v ht (by omega)]
+          exact ihL r v hp (by omega)
+
+/-- the DFS stops at the first PASTE of the tree when that names an undefined macro -/
+theorem findPaste_first (ms : Macros) (tgt : Nat) : ∀ fuel : Nat,
+    (∀ t v p, firstPaste t = some p → p.name ≠ 0 → p.name ≠ tgt → p.name ∉ v → ms.get? p.name = none →
+      2 * treeSize t ≤ fuel → findPaste ms tgt fuel t v = .error (.notFound p.id)) ∧
+    (∀ l v p, firstPaste.firstPasteList l = some p → p.name ≠ 0 → p.name ≠ tgt → p.name ∉ v →
+      ms.get? p.name = none → 2 * treeSize.sizeList l + 1 ≤ fuel →
+      findPasteList ms tgt fuel l v = .error (.notFound p.id)) := by
+  intro fuel
+  induction fuel with
+  | zero =>
+    constructor
+    · intro t v p _ _ _ _ _ h; have := treeSize_pos t; omega
+    · intro l v p _ _ _ _ _ h; omega
+  | succ fuel ih =>
+    rcases ih with ⟨ihT, ihL⟩
+    constructor
+    · intro t v p hp h0 ht hv hu hf
+      rcases t with ⟨d, kids⟩
+      rw [treeSize_node] at hf
+      rw [firstPaste] at hp
+      rw [findPaste]
+      by_cases hk : (d.kind == Gen.Kind.Paste) = true
+      · simp only [hk, if_true, Option.some.injEq] at hp ⊢
+        subst hp
+        have e0 : (d.name == 0) = false := by simpa using h0
+        have et : (d.name == tgt) = false := by simpa using ht
+        have ev : v.contains d.name = false := by simpa using hv
+        simp only [e0, et, ev, hu, Bool.false_eq_true, if_false]
+      · simp only [hk, Bool.false_eq_true, if_false] at hp ⊢
+        exact ihL _ _ _ hp h0 ht hv hu (by omega)
+    · intro l v p hp h0 ht hv hu hf
+      cases l with
+      | nil => simp [firstPaste.firstPasteList] at hp
+      | cons t r =>
+        rw [treeSize.sizeList] at hf
+        rw [firstPaste.firstPasteList] at hp
+        have := treeSize_pos t
+        rw [findPasteList]
+        cases hft : firstPaste t with
+        | some q =>
+          simp only [hft, Option.some.injEq] at hp
+          subst hp
+          rw [ihT t v q hft h0 ht hv hu (by omega)]
+        | none =>
+          simp only [hft] at hp
+          rw [(findPaste_nopaste ms tgt fuel).1 t v hft (by omega)]
+          exact ihL r v p hp h0 ht hv hu (by omega)
+
+/-- (4') the precise error in the simplest case: when the first PASTE (in document order) of the first
+    macro of the table has a name that is not defined, the check reports exactly "macro not found" at
+    that PASTE -/
+theorem first_undefined_paste_reported (a : Nat) (m : Tree) (r : Macros) (p : Dir)
+    (hp : firstPaste m = some p) (h0 : p.name ≠ 0) (hu : Macros.get? ((a, m) :: r) p.name = none) :
+    checkRecursion ((a, m) :: r) = .error (.notFound p.id) := by
+  have ha : p.name ≠ a := by
+    intro e
+    rw [get?_cons] at hu
+    simp [e] at hu
+  unfold checkRecursion
+  rw [checkRecursion.go,
+    (findPaste_first _ a _).1 m [a] p hp h0 ha (by simpa using ha) hu
+      (by rw [macrosSize_cons]; simp only; omega)]
+
+/-- … and so does `expand` for every source whose collected macro table begins with that macro -/
+theorem expand_first_undefined_paste_reported (roots : List Tree) (a : Nat) (m : Tree) (r : Macros)
+    (rest : List Tree) (p : Dir) (hc : collectMacro roots [] [] = .ok ((a, m) :: r, rest))
+    (hp : firstPaste m = some p) (h0 : p.name ≠ 0) (hu : Macros.get? ((a, m) :: r) p.name = none) :
+    expand roots = .error (.notFound p.id) := by
+  unfold expand
+  simp only [hc, first_undefined_paste_reported a m r p hp h0 hu]
 
 /-! ## (3) recursion -/
 
@@ -307,6 +486,13 @@ private def cyc1 : Tree := .node { kind := .Macro, explicit := true, name := 1, 
   [.node { kind := .Paste, name := 2, id := 1 } []]
 private def cyc2 : Tree := .node { kind := .Macro, explicit := true, name := 2, id := 2 }
   [.node { kind := .Paste, name := 1, id := 3 } []]
+/-- `MACRO @1 ( PASTE @9 )` where no macro `@9` exists -/
+private def undef1 : Tree := .node { kind := .Macro, explicit := true, name := 1, id := 0 }
+  [.node { kind := .Paste, name := 9, id := 1 } []]
+/-- `MACRO @3 ( POST  PASTE @9 )` where no macro `@9` exists -/
+private def undef3 : Tree := .node { kind := .Macro, explicit := true, name := 3, id := 6 }
+  [.node { kind := .Post, id := 7 } [], .node { kind := .Paste, name := 9, id := 8 } []]
+private def getX : Dir := { kind := .Get, explicit := true, id := 10 }
 
 -- MACRO @1 ( GET 200 )  URL  PASTE @1      expands to URL{GET{200}} …
 example : expand [mac1, .node url [paste 1]] = .ok [.node url [.node get' [.node code []]]] := by
@@ -337,6 +523,18 @@ example : expand [mac1, mac2, .node url [paste 1]] = expand [mac1, .node url [pa
 
 -- undefined, duplicate, cyclic
 example : expand [.node url [paste 1]] = .error (.inPaste 4) := by decide +kernel
+-- MACRO @1 ( PASTE @9 )  GET ( 200 )     the macro is never pasted, its undefined PASTE is reported all the same
+example : expand [undef1, .node getX [.node code []]] = .error (.notFound 1) := by decide +kernel
+example : checkRecursion [(1, undef1)] = .error (.notFound 1) := by decide +kernel
+-- without the faulty macro the source is fine
+example : expand [.node getX [.node code []]] = .ok [.node getX [.node code []]] := by decide +kernel
+-- MACRO @1 ( GET 200 )  MACRO @3 ( POST  PASTE @9 )     an undefined PASTE in a later macro, after a sibling
+example : expand [mac1, undef3, .node url [paste 1]] = .error (.notFound 8) := by decide +kernel
+example : firstPaste undef3 = some { kind := .Paste, name := 9, id := 8 } := by decide +kernel
+-- an earlier fault is reported first: the cycle @1 -> @2 -> @1 before the undefined @9 of MACRO @3
+example : expand [cyc1, cyc2, undef3, .node ty []] = .error (.recursion 3) := by decide +kernel
+-- a PASTE outside any macro is still seen by the expansion only
+example : expand [mac1, .node url [paste 9]] = .error (.inPaste 4) := by decide +kernel
 example : expand [mac1, mac1, .node url [paste 1]] = .error (.duplicate 0) := by decide +kernel
 example : checkRecursion [(1, cyc1), (2, cyc2)] = .error (.recursion 3) := by decide +kernel
 example : expand [cyc1, cyc2, .node ty []] = .error (.recursion 3) := by decide +kernel
